@@ -1,0 +1,152 @@
+// Verification hooks. This file only exists under the "verif" build tag; it
+// adds exported accessors around unexported internals and changes nothing.
+
+//go:build verif
+
+package gohbase
+
+import (
+	"context"
+	"log/slog"
+	"time"
+
+	"github.com/tsuna/gohbase/hrpc"
+	"github.com/tsuna/gohbase/region"
+	"github.com/tsuna/gohbase/zk"
+	"modernc.org/b/v2"
+)
+
+// VerifNewClient creates a regular client that uses the given zk.Client.
+func VerifNewClient(zkc zk.Client, options ...Option) Client {
+	c := newClient("verif-zk", options...)
+	c.zkClient = zkc
+	return c
+}
+
+// VerifNewAdminClient creates an admin client that uses the given zk.Client.
+func VerifNewAdminClient(zkc zk.Client, options ...Option) AdminClient {
+	ac := newAdminClient("verif-zk", options...)
+	ac.(*client).zkClient = zkc
+	return ac
+}
+
+// VerifCloseAdmin closes an admin client created by VerifNewAdminClient.
+func VerifCloseAdmin(ac AdminClient) {
+	ac.(*client).Close()
+}
+
+// VerifRegionCache is a stand-alone region location cache (the same type the
+// client uses), together with the client's lookup function.
+type VerifRegionCache struct {
+	c *client
+}
+
+// VerifNewRegionCache returns an empty cache.
+func VerifNewRegionCache() *VerifRegionCache {
+	logger := slog.New(slog.NewTextHandler(verifDiscard{}, &slog.HandlerOptions{
+		Level: slog.LevelError + 4}))
+	c := &client{
+		clientType: region.RegionClient,
+		logger:     logger,
+		metaRegionInfo: region.NewInfo(0, []byte("hbase"), []byte("meta"),
+			[]byte("hbase:meta,,1"), nil, nil),
+	}
+	c.regions = keyRegionCache{
+		logger:  logger,
+		regions: b.TreeNew[[]byte, hrpc.RegionInfo](region.Compare),
+	}
+	return &VerifRegionCache{c: c}
+}
+
+type verifDiscard struct{}
+
+func (verifDiscard) Write(p []byte) (int, error) { return len(p), nil }
+
+// Put is keyRegionCache.put.
+func (v *VerifRegionCache) Put(reg hrpc.RegionInfo) ([]hrpc.RegionInfo, bool) {
+	return v.c.regions.put(reg)
+}
+
+// Del is keyRegionCache.del.
+func (v *VerifRegionCache) Del(reg hrpc.RegionInfo) bool {
+	return v.c.regions.del(reg)
+}
+
+// Lookup is client.getRegionFromCache.
+func (v *VerifRegionCache) Lookup(table, key []byte) hrpc.RegionInfo {
+	return v.c.getRegionFromCache(table, key)
+}
+
+// Snapshot returns the cached regions in cache order.
+func (v *VerifRegionCache) Snapshot() []hrpc.RegionInfo {
+	return verifSnapshot(&v.c.regions)
+}
+
+func verifSnapshot(krc *keyRegionCache) []hrpc.RegionInfo {
+	krc.m.RLock()
+	defer krc.m.RUnlock()
+	var out []hrpc.RegionInfo
+	enum, err := krc.regions.SeekFirst()
+	if err != nil {
+		return nil
+	}
+	defer enum.Close()
+	for {
+		_, v, err := enum.Next()
+		if err != nil {
+			return out
+		}
+		out = append(out, v)
+	}
+}
+
+// VerifCreateRegionSearchKey is createRegionSearchKey.
+func VerifCreateRegionSearchKey(table, key []byte) []byte {
+	return createRegionSearchKey(table, key)
+}
+
+// VerifFullyQualifiedTable is fullyQualifiedTable.
+func VerifFullyQualifiedTable(reg hrpc.RegionInfo) []byte {
+	return fullyQualifiedTable(reg)
+}
+
+// VerifSleepAndIncreaseBackoff is sleepAndIncreaseBackoff.
+func VerifSleepAndIncreaseBackoff(ctx context.Context,
+	backoff time.Duration) (time.Duration, error) {
+	return sleepAndIncreaseBackoff(ctx, backoff)
+}
+
+// VerifCachedRegions returns the regions in the client's location cache plus
+// the meta / admin region.
+func VerifCachedRegions(cl interface{}) []hrpc.RegionInfo {
+	c := cl.(*client)
+	var out []hrpc.RegionInfo
+	if c.metaRegionInfo != nil {
+		out = append(out, c.metaRegionInfo)
+	}
+	if c.adminRegionInfo != nil {
+		out = append(out, c.adminRegionInfo)
+	}
+	if c.regions.regions != nil {
+		out = append(out, verifSnapshot(&c.regions)...)
+	}
+	return out
+}
+
+// VerifCachedClients returns the region clients in the client's connection
+// cache with the number of regions registered for each.
+func VerifCachedClients(cl interface{}) map[hrpc.RegionClient]int {
+	c := cl.(*client)
+	out := map[hrpc.RegionClient]int{}
+	c.clients.m.RLock()
+	for rc, regs := range c.clients.regions {
+		out[rc] = len(regs)
+	}
+	c.clients.m.RUnlock()
+	return out
+}
+
+// VerifNewScanner creates a scanner on top of an arbitrary RPCClient.
+func VerifNewScanner(c RPCClient, rpc *hrpc.Scan) hrpc.Scanner {
+	return newScanner(c, rpc, slog.New(slog.NewTextHandler(verifDiscard{}, nil)))
+}
